@@ -929,6 +929,9 @@ fn run_def(def: &Def, case: &Case, rec: &mut Rec, record: bool) -> CaseResult {
         }
         if record {
             rec.class(&aspect);
+            if kind == Kind::Omerc && s.aspect.contains("-alpha") && !s.aspect.contains("obtuse") {
+                rec.class(&format!("{aspect}/{}", if s.lat_c.unwrap_or(0.0) < 0.0 { "latc<0" } else { "latc>=0" }));
+            }
             rec.class(&format!("ellipsoid:{}", def.ell.class()));
             // non-trivial: off the symmetry lines and away from the centre
             let lat_c = s.lat_c.unwrap_or(0.0);
@@ -1313,7 +1316,7 @@ fn def_strategy(names: Vec<String>) -> BoxedStrategy<Def> {
             }),
         4 => (ell.clone(), prop_oneof![1 => Just(90.0), 1 => Just(-90.0), 1 => Just(0.0), 4 => millideg(1, 89), 4 => millideg(-89, -1), 1 => (1i32..1000).prop_map(|i| i as f64 / 1000.0), 1 => (1i32..1000).prop_map(|i| 90.0 - i as f64 / 1000.0)], lon(), false_origin())
             .prop_map(|(e, lat_0, lon_0, xy)| put_xy(put_nd(Def::new("laea", e).with("lat_0", lat_0), "lon_0", lon_0, 0.0), xy)),
-        5 => (ell.clone(), omerc_params(false), lon(), k0_strategy(), false_origin()).prop_map(|(e, (latc, alpha, gamma, variant), lonc, k, xy)| omerc_def(e, latc, alpha, gamma, variant, lonc, k, xy)),
+        5 => (ell.clone(), omerc_params(), lon(), k0_strategy(), false_origin()).prop_map(|(e, (latc, alpha, gamma, variant), lonc, k, xy)| omerc_def(e, latc, alpha, gamma, variant, lonc, k, xy)),
         3 => (ell, prop_oneof![1 => Just(0.0), 6 => millideg(-80, 80), 2 => millideg(-89, 89)], lon(), k0_strategy(), false_origin())
             .prop_map(|(e, lat_0, lon_0, k, xy)| put_xy(put_nd(put_nd(put_nd(Def::new("somerc", e), "lat_0", lat_0, 0.0), "lon_0", lon_0, 0.0), "k_0", k, 1.0), xy)),
     ]
@@ -1354,13 +1357,8 @@ fn lcc_parallels() -> impl Strategy<Value = (f64, Option<f64>)> {
 }
 
 /// (latc, alpha, gamma_c, variant): azimuths of every quadrant, 90 exactly, negative ones
-fn omerc_params(registered: bool) -> impl Strategy<Value = (f64, f64, Option<f64>, bool)> {
-    let alpha = if registered {
-        // alpha = -90 exactly: registered finding (ill-conditioned asin at -1)
-        Just(-90.0).boxed()
-    } else {
-        prop_oneof![6 => millideg(5, 85), 2 => millideg(-85, -5), 1 => millideg(275, 355), 2 => Just(90.0), 1 => millideg(95, 175), 1 => millideg(185, 265), 1 => Just(270.0)].boxed()
-    };
+fn omerc_params() -> impl Strategy<Value = (f64, f64, Option<f64>, bool)> {
+    let alpha = prop_oneof![6 => millideg(5, 85), 2 => millideg(-85, -5), 1 => millideg(275, 355), 2 => Just(90.0), 2 => Just(-90.0), 2 => Just(270.0), 1 => millideg(95, 175), 1 => millideg(185, 265)];
     (
         prop_oneof![4 => millideg(1, 80), 4 => millideg(-80, -1), 1 => Just(0.0), 2 => millideg(-89, 89)],
         alpha,
@@ -1378,18 +1376,8 @@ fn omerc_params(registered: bool) -> impl Strategy<Value = (f64, f64, Option<f64
         })
 }
 
-/// Parameter classes in which findings are registered (kept out of `def_strategy` so that a known
-/// failure cannot mask anything else)
-fn registered_def_strategy(names: Vec<String>) -> BoxedStrategy<Def> {
-    let ell = ell_strategy(names);
-    let lon = prop_oneof![1 => Just(0.0), 5 => millideg(-180, 180)];
-    (ell, omerc_params(true), lon, k0_strategy(), false_origin())
-        .prop_map(|(e, (latc, alpha, gamma, variant), lonc, k, xy)| omerc_def(e, latc, alpha, gamma, variant, lonc, k, xy))
-        .boxed()
-}
-
-fn case_strategy(names: Vec<String>, registered: bool, npts: usize, libjac_weight: f64) -> impl Strategy<Value = Case> {
-    (if registered { registered_def_strategy(names) } else { def_strategy(names) }, prop::collection::vec((unit(), unit()), 1..=npts), prop::bool::weighted(libjac_weight)).prop_map(|(def, uv, libjac)| {
+fn case_strategy(names: Vec<String>, npts: usize, libjac_weight: f64) -> impl Strategy<Value = Case> {
+    (def_strategy(names), prop::collection::vec((unit(), unit()), 1..=npts), prop::bool::weighted(libjac_weight)).prop_map(|(def, uv, libjac)| {
         let pts = uv.iter().map(|(u, v)| domain_point(&def, *u, *v)).collect();
         Case { def, pts, libjac }
     })
@@ -1451,6 +1439,22 @@ fn canonical_aspects(e: &Ell) -> Vec<Def> {
         d("omerc").with("latc", -33.0).with("lonc", 151.0).with("alpha", 90.0).with("gamma_c", 90.0),
         d("omerc").with("latc", 40.0).with("lonc", 10.0).with("alpha", 120.0).with("gamma_c", 120.0).with("x_0", 1000.0).with("y_0", 2000.0).flag("variant"),
         d("omerc").with("latc", -25.0).with("lonc", -60.0).with("alpha", 200.0).with("gamma_c", 200.0),
+        d("omerc").with("latc", 47.0).with("lonc", 19.0).with("alpha", 90.0).with("gamma_c", 90.0),
+        d("omerc").with("latc", -41.0).with("lonc", 173.0).with("alpha", 90.0).with("gamma_c", 90.0).with("x_0", 300_000.0).with("y_0", 700_000.0).flag("variant"),
+        d("omerc").with("latc", 52.0).with("lonc", 5.0).with("alpha", 90.0).with("k_0", 0.9999),
+        d("omerc").with("latc", -12.0).with("lonc", -70.0).with("alpha", 90.0).with("x_0", 500_000.0).with("y_0", 1_000_000.0),
+        d("omerc").with("latc", 35.0).with("lonc", 25.0).with("alpha", -90.0).with("gamma_c", -90.0),
+        d("omerc").with("latc", -35.0).with("lonc", 25.0).with("alpha", -90.0).with("gamma_c", -90.0),
+        d("omerc").with("latc", 47.14439372222).with("lonc", 19.04857177778).with("alpha", -90.0).with("gamma_c", -90.0).with("k_0", 0.99993).with("x_0", 650_000.0).with("y_0", 200_000.0).flag("variant"),
+        d("omerc").with("latc", -22.0).with("lonc", 133.0).with("alpha", -90.0).with("gamma_c", -75.0).with("x_0", 100_000.0).with("y_0", 100_000.0).flag("variant"),
+        d("omerc").with("latc", 18.606).with("alpha", -90.0),
+        d("omerc").with("latc", -61.01).with("lonc", -45.0).with("alpha", -90.0).with("k_0", 0.9996).with("x_0", 1_000_000.0).with("y_0", 2_000_000.0),
+        d("omerc").with("latc", 60.0).with("lonc", 15.0).with("alpha", 270.0).with("gamma_c", 270.0),
+        d("omerc").with("latc", -8.0).with("lonc", 115.0).with("alpha", 270.0).with("gamma_c", 270.0),
+        d("omerc").with("latc", 28.0).with("lonc", -81.0).with("alpha", 270.0).with("gamma_c", 270.0).with("x_0", 200_000.0).with("y_0", 0.0).flag("variant"),
+        d("omerc").with("latc", -45.0).with("lonc", 170.0).with("alpha", 270.0).with("gamma_c", 250.0).with("k_0", 1.0001).flag("variant"),
+        d("omerc").with("latc", 3.0).with("lonc", 102.0).with("alpha", 270.0),
+        d("omerc").with("latc", -75.0).with("lonc", 0.0).with("alpha", 270.0).with("x_0", 50_000.0).with("y_0", 50_000.0),
         d("somerc"),
         d("somerc").with("lat_0", 46.9524055555556).with("lon_0", 7.43958333333333).with("x_0", 2_600_000.0).with("y_0", 1_200_000.0),
         d("somerc").with("lat_0", -41.0).with("lon_0", 173.0).with("k_0", 0.9996),
@@ -1559,22 +1563,9 @@ fn main() {
         let nm = names.clone();
         run.section(
             "random",
-            "random parameter sets of every projection (centre, standard parallels in both hemispheres, k_0, lat_ts, azimuth of every quadrant incl. 90 and 270 exactly and rectified-grid angle, all aspects of laea, false origins; excluded by construction: omerc alpha = -90 exactly, a registered finding, see section registered-classes) x built-in or random ellipsoid (f in [1e-7, 1/150], a in [1, 7e6]) x up to 12 points of the domain incl. its edges; lines of true scale and origins checked for every case",
+            "random parameter sets of every projection (centre, standard parallels in both hemispheres, k_0, lat_ts, azimuth of every quadrant incl. 90, -90 and 270 exactly with both signs of latc and variants A/B/Laborde, rectified-grid angle, all aspects of laea, false origins) x built-in or random ellipsoid (f in [1e-7, 1/150], a in [1, 7e6]) x up to 12 points of the domain incl. its edges; lines of true scale and origins checked for every case",
             n,
-            move || case_strategy(nm.clone(), false, 12, 0.15),
-            check,
-        );
-    }
-
-    // 3. parameter classes of registered findings (kept apart so that they do not mask anything)
-    {
-        let n = run.scale(8_000, 200_000);
-        let nm = names.clone();
-        run.section(
-            "registered-classes",
-            "parameter classes in which findings are registered and not yet repaired: omerc with alpha = -90 exactly; same oracle",
-            n,
-            move || case_strategy(nm.clone(), true, 6, 0.0),
+            move || case_strategy(nm.clone(), 12, 0.15),
             check,
         );
     }
